@@ -246,6 +246,24 @@ def returns_of(fnode):
     return out
 
 
+def rv(fnode, ret):
+    """inlined value of one return statement (robust against `tmp = E; return tmp`)"""
+    if ret.value is None:
+        return None
+    return inline_straight(fnode, upto=ret).value(ret.value)
+
+
+def ret_elts(fnode, ret):
+    """elements of a returned tuple, as written (not inlined), following one level of `name = (a, b); return name`"""
+    v = ret.value
+    if isinstance(v, ast.Name):
+        name = v.id
+        for n in ast.walk(fnode):
+            if isinstance(n, ast.Assign) and any(isinstance(t, ast.Name) and t.id == name for t in n.targets):
+                v = n.value
+    return list(v.elts) if isinstance(v, (ast.Tuple, ast.List)) else None
+
+
 def returned_expr(fnode):
     """Inlined value of the (single) return statement of a straight-line function, or None."""
     rets = returns_of(fnode)
